@@ -578,6 +578,18 @@ func (e *Exec) CloseStore() error {
 	return err
 }
 
+// AbortStore closes the store with StoreCloseExOptions{Abort: true}: store
+// operations in flight stop as soon as possible.
+func (e *Exec) AbortStore() error {
+	if e.Store == nil {
+		return nil
+	}
+	e.partialsEver += e.storePartials()
+	err := e.Store.CloseEx(moss.StoreCloseExOptions{Abort: true})
+	e.Store = nil
+	return err
+}
+
 func (e *Exec) storePartials() uint64 {
 	if e.Store == nil {
 		return 0
